@@ -156,6 +156,42 @@ func c13Loads(sum *runSummary, r *rng, id int, tier string) int {
 			}
 		}
 	}
+	// a term_expansion/2 hook that runs long (but ends): cancelled while inside the hook, through a load and through
+	// expand_term/2; afterwards the same interpreter still applies the hook
+	for _, n := range []int{5, 50, 500} {
+		for mode, run := range map[string]string{"load": "", "expand_term": "expand_term(foo, X)."} {
+			p := prolog.New(nil, nil)
+			_ = p.Exec("term_expansion(foo, bar) :- between(1, 30000, X), X >= 30000.")
+			desc := map[string]interface{}{"text": fmt.Sprintf("term_expansion(foo, bar) :- between(1, 30000, X), X >= 30000.  then %s with the context cancelled from poll %d on, then expand_term(foo, X) and a load of foo. without cancellation", mode, n), "cancel_at_poll": n}
+			sum.Cases[fmt.Sprint(id)] = desc
+			ctx := newStepCtx(context.Background(), n)
+			done := make(chan error, 1)
+			go func() {
+				if run == "" {
+					done <- p.ExecContext(ctx, "foo.")
+				} else {
+					done <- p.QuerySolutionContext(ctx, run).Err()
+				}
+			}()
+			sum.Evaluations++
+			sum.count("cancel:inside-term_expansion:" + mode)
+			select {
+			case <-done:
+			case <-time.After(5 * time.Second):
+				sum.Failures = append(sum.Failures, failure{ID: id, Class: "cancel:term-expansion-does-not-return", Input: desc, Observed: "no return within 5 s", Expected: "the context's error"})
+				id++
+				continue
+			}
+			x := runQuery(p, 2, []string{"X"}, "expand_term(foo, X) .")
+			err2 := p.Exec("foo.")
+			y := runQuery(p, 2, nil, "bar .")
+			if len(x.Answers) != 1 || x.Answers[0]["X"].S != "bar" || err2 != nil || len(y.Answers) != 1 {
+				sum.Failures = append(sum.Failures, failure{ID: id, Class: "cancel:term-expansion-not-applied-afterwards", Input: desc,
+					Observed: fmt.Sprint("expand_term: ", x.Answers, x.Err, x.GoErr, " load: ", err2, " bar: ", len(y.Answers), y.Err), Expected: "X = bar; bar holds"})
+			}
+			id++
+		}
+	}
 	// a term_expansion/2 that never returns: loading any text, and expand_term/2, must still be cancellable
 	for _, n := range []int{5, 50, 500} {
 		for mode, run := range map[string]string{"load": "", "expand_term": "expand_term(foo, X)."} {
